@@ -9,13 +9,16 @@
   A value that merely CONTAINS an unknown (a set / record with a variable entity inside) is looked into by attribute
   access and `has` only (`tryPartialOperands` with `lookInside`); for every other operator, and wherever a node is
   embedded in a residual, it is as unknown as the variable itself (`PR.whole`) and the original sub-expression is kept.
+  Likewise a value that merely CONTAINS the ignore marker is looked into by attribute access and `has` only; for every
+  other operator, and wherever it would be embedded in a residual, it is ignored (`errIgnore`) like the marker itself.
   `e is T in r` follows `isInEval`: the right-hand side is strict only once the type test is known to pass
   (`isInStep`).
 
   History: this file mirrored four defect families of partial.go until they were repaired
   (`stale-residual-and|or|if`: `partialAnd/Or/IfThenElse` kept the node returned with `errVariable`;
   `tainted-container-*` / `tainted-record-*`: every operator was evaluated over values that merely contain an unknown;
-  `isin-eager-rhs-error`: `is … in` was a strict binary operator).  The former counterexamples are regression
+  `isin-eager-rhs-error`: `is … in` was a strict binary operator; `nested-ignore-consumed-whole`: a value that merely
+  contains the ignore marker was consumed whole as a known value).  The former counterexamples are regression
   examples in `CedarGoProofs/Properties/C06.lean`.
 
   Unknowns are the entity `__cedar::variable::"name"`, ignored parts the entity `__cedar::ignore::""`.
@@ -57,6 +60,28 @@ def Value.hasUnknownList : List Value → Bool
   | x :: xs => Value.hasUnknown x || Value.hasUnknownList xs
 end
 
+mutual
+/-- the value is, or contains (inside records / sets, at any depth), an ignore marker -/
+def Value.hasIgnore : Value → Bool
+  | .entity ty _ => ty == ignoreEntityType
+  | .record kvs => Value.hasIgnoreKVs kvs
+  | .set xs => Value.hasIgnoreList xs
+  | _ => false
+def Value.hasIgnoreKVs : List (String × Value) → Bool
+  | [] => false
+  | (_, x) :: rest => Value.hasIgnore x || Value.hasIgnoreKVs rest
+def Value.hasIgnoreList : List Value → Bool
+  | [] => false
+  | x :: xs => Value.hasIgnore x || Value.hasIgnoreList xs
+end
+
+/-- `containsIgnore`: the value is a record or set with an ignore marker somewhere inside (the marker itself is
+    `isIgnore`, not `ignInside`) -/
+def Value.ignInside : Value → Bool
+  | .record kvs => Value.hasIgnoreKVs kvs
+  | .set xs => Value.hasIgnoreList xs
+  | _ => false
+
 /-- result of `partial`: `(node, nil)`, `(node, errVariable)`, `(nil, errIgnore)`, `(nil, err)` -/
 inductive PR where
   | ok (e : Expr)
@@ -72,11 +97,13 @@ inductive EvR where
   | err (e : Err)
 deriving Repr, Inhabited
 
-/-- `isValueWithVariable`: for every consumer other than attribute access / `has`, a literal that contains an unknown
-    is as unknown as the variable itself — it is treated exactly like `(node, errVariable)`: the ORIGINAL
-    sub-expression is kept -/
+/-- `isValueWithIgnore`, then `isValueWithVariable`: for every consumer other than attribute access / `has`, a literal
+    that contains an ignore marker is ignored like the marker itself — exactly like `(nil, errIgnore)` — and a literal
+    that contains an unknown is as unknown as the variable itself — it is treated exactly like `(node, errVariable)`: the
+    ORIGINAL sub-expression is kept.  The ignore test comes first (`tryPartialOperands` returns `errIgnore` as soon as it
+    meets such an operand; `partialAnd` / `Or` / `IfThenElse` / `IsIn` test `errIgnore || isValueWithIgnore` first). -/
 def PR.whole : PR → PR
-  | .ok (.lit v) => if v.hasUnknown then .var (.lit v) else .ok (.lit v)
+  | .ok (.lit v) => if v.ignInside then .ign else if v.hasUnknown then .var (.lit v) else .ok (.lit v)
   | p => p
 
 /-- `extError(err)` (message not modelled) -/
